@@ -163,6 +163,16 @@ fn check_map<T: BackingContainer<usize, u32>>(
             ),
         });
     }
+    if map.is_empty() != model.top().is_empty() {
+        return Some(Violation {
+            class: "c20:map:is_empty".into(),
+            detail: format!(
+                "after op {step} ({what}): is_empty() = {}, model has {} visible keys",
+                map.is_empty(),
+                model.top().len()
+            ),
+        });
+    }
     let mut visible: Vec<(usize, u32)> = map.iter().map(|(k, v)| (k, *v)).collect();
     visible.sort();
     let want: Vec<(usize, u32)> = model.top().iter().map(|(k, v)| (*k, *v)).collect();
